@@ -22,6 +22,10 @@ pub fn pool(tag: &str, thorough: bool) -> Vec<Vec<String>> {
         vec!["(import (nolib))".into(), "(car '(1 2))".into(), "(import (scheme base))".into()],
         vec!["(import (util config))".into(), "(config-value)".into(), "(list (config-value) x)".into()],
         vec!["(car '())".into(), "(undefined-thing)".into(), "(+ 1 2)".into()],
+        // macro definitions inside LIBRARY bodies (a file library of the instance's own directory,
+        // and a define-library form met in program text): they belong to that library
+        vec!["(import (util macros))".into(), "(list mval (when #t 'w))".into(), "(leak)".into()],
+        vec![format!("(define-library (inline lib) (export iv) (begin (define-syntax unless (syntax-rules () ((unless a ...) 'hijacked-{}))) (define-syntax leak (syntax-rules () ((leak) 'leaked-{}))) (define iv 1)))", t, t), "(unless #f 'u)".into(), "(leak)".into()],
         vec!["(let ((a 1)) (cond ((= a 1) 'one) (else 'other)))".into(), "(when #t 'w)".into(), "(my 3)".into()],
         vec!["(and 1 (or #f 2) (case 2 ((1) 'a) ((2) 'b) (else 'c)))".into(), "(let* ((a 1) (b (+ a 1))) (list a b))".into(), "x".into()],
     ];
@@ -71,6 +75,10 @@ pub fn setup_dirs() -> (std::path::PathBuf, std::path::PathBuf) {
     for (d, tag) in [(&da, "A"), (&db, "B")] {
         let _ = std::fs::create_dir_all(d.join("util"));
         let _ = std::fs::write(d.join("util/config.sld"), format!("(define-library (util config) (export config-value) (begin (define (config-value) 'config-of-{})))\n", tag));
+        let _ = std::fs::write(
+            d.join("util/macros.sld"),
+            format!("(define-library (util macros) (export mval) (import (scheme base)) (begin (define-syntax when (syntax-rules () ((when a ...) 'lib-when-{0}))) (define-syntax leak (syntax-rules () ((leak) 'leaked-{0}))) (define mval (when #t 1))))\n", tag),
+        );
     }
     (da, db)
 }
